@@ -157,8 +157,12 @@ func runC08(c *Ctx) {
 	addParse := c.P.Method("protocol/model", "T0x0200AdditionDetails", "parse")
 	addCarriers := map[string]string{"T0x0200": "bytes(jtMsg.Body@28+(len:len(*jtMsg.Body)-28))"}
 	itemObs, itemBad := 0, ""
+	carrierJT := map[*ssa.Function]absint.Term{}
 	cres := c.RunE1(entries, false, func(a *absint.Analyzer, fn *ssa.Function, st *absint.State, args []absint.Term) {
 		preJTMsg(a, fn, st, args)
+		c.mu.Lock()
+		carrierJT[fn] = args[1]
+		c.mu.Unlock()
 		carrier := fn.Signature.Recv().Type().(*types.Pointer).Elem().(*types.Named).Obj().Name()
 		if carrier == "T0x0704" {
 			a.OnAppend = func(f *ssa.Function, site ssa.Instruction, st *absint.State, dst *absint.Slice, src absint.Term) {
@@ -250,6 +254,32 @@ func runC08(c *Ctx) {
 		}
 	})
 	c.AddE1(cres, false)
+	// a carrier that holds nothing but its fixed part and the 28-byte base block is a legal report: it is decoded, not rejected
+	R.Rules["E3.accept-min"] = "each carrier accepts the shortest body the standard allows - 28 bytes for 0x0200 (base block, no additional information), 36 bytes for 0x0801 (8-byte head, base block, empty multimedia package): a successful return is feasible at that length"
+	for _, r := range cres {
+		carrier := r.Fn.Signature.Recv().Type().(*types.Pointer).Elem().(*types.Named).Obj().Name()
+		min := map[string]int64{"T0x0200": 28, "T0x0801": 36}[carrier]
+		if min == 0 {
+			continue
+		}
+		okMin, nSucc := false, 0
+		for _, ret := range r.Rets {
+			if _, isNil := ret.Val.(absint.NilT); !isNil {
+				continue
+			}
+			nSucc++
+			bt := findField(r.A, ret.St, carrierJT[r.Fn], r.Fn.Params[1].Type(), []string{"Body"})
+			if bs, isS := bt.(*absint.Slice); isS && ret.St.Feasible(absint.Con{L: bs.Len.AddC(-min), Rel: absint.EQ}) {
+				okMin = true
+			}
+		}
+		st, d := report.Discharged, ""
+		if !okMin {
+			st, d = report.Violated, fmt.Sprintf("no successful return of %s.Parse is possible for a body of %d bytes, the shortest the standard allows (%d successful returns examined): the location in such a report is never decoded", carrier, min, nSucc)
+		}
+		R.Add("E3.accept-min", fmt.Sprintf("%s.Parse / accepts the %d-byte minimal body", carrier, min), c.P.RelPos(r.Fn.Pos()), st, d)
+	}
+	R.Require("E3.accept-min", 2, "")
 	for carrier := range carriers {
 		os := obs[carrier]
 		if len(os) == 0 {
